@@ -14,17 +14,22 @@ def generic(rng, n):
     return tuple(float(x) for x in rng.choice([-1, 1], size=n) * rng.uniform(0.1, 2.0, size=n))
 
 
+TRUTHY = [True, True, np.bool_(True), 1, np.int64(1)]          # the documented flag `optimize` in the forms callers produce (a comparison of numpy integers yields np.bool_)
+
+
 def build(name, L, rng):
     if name == 'molecular':
         t = rng.uniform(0.1, 2, size=(L, L)) * rng.choice([-1, 1], size=(L, L))
         v = rng.uniform(0.1, 2, size=(L, L, L, L)) * rng.choice([-1, 1], size=(L, L, L, L))
         if rng.random() < 0.5:
             t = t + 1j * rng.uniform(0.1, 2, size=(L, L))
-        return ptn.molecular_hamiltonian_mpo(t, v, optimize=True), {'tkin': t}
+        opt = TRUTHY[int(rng.integers(0, len(TRUTHY)))]
+        return ptn.molecular_hamiltonian_mpo(t, v, optimize=opt), {'tkin': t, 'optimize': repr(opt)}
     if name == 'spin-molecular':
         t = rng.uniform(0.1, 2, size=(L, L)) * rng.choice([-1, 1], size=(L, L))
         v = rng.uniform(0.1, 2, size=(L, L, L, L)) * rng.choice([-1, 1], size=(L, L, L, L))
-        return ptn.spin_molecular_hamiltonian_mpo(t, v, optimize=True), {'tkin': t}
+        opt = TRUTHY[int(rng.integers(0, len(TRUTHY)))]
+        return ptn.spin_molecular_hamiltonian_mpo(t, v, optimize=opt), {'tkin': t, 'optimize': repr(opt)}
     p = generic(rng, 3)
     if name.startswith('bose'):
         return ptn.bose_hubbard_mpo(int(name[4:]), L, *p), {'params': p}
@@ -62,7 +67,8 @@ def build_round(name, L, rng):
             else:
                 v[tuple(int(x) for x in rng.integers(0, L, size=4))] = float(rng.choice([1.0, 1.0, -1.0, 2.0]))
         fn = ptn.molecular_hamiltonian_mpo if name == 'molecular' else ptn.spin_molecular_hamiltonian_mpo
-        return fn(t, v, optimize=True), {'tkin': t, 'how': how}, how
+        opt = TRUTHY[int(rng.integers(0, len(TRUTHY)))]
+        return fn(t, v, optimize=opt), {'tkin': t, 'how': how, 'optimize': repr(opt)}, how
     if how == 'all-round':
         p = tuple(float(rng.choice(ROUND)) for _ in range(3))
     else:
